@@ -37,7 +37,7 @@ MANIFEST = dict(
     technique="Lean 4 proofs (mutual structural induction over nested arguments, induction over operation histories, refinement to a "
               "one-pass specification) + differential correspondence check of histories and predicates",
 )
-PROP_FILES = ["HtmlVerif/Props/C14.lean", "HtmlVerif/Props/SrcC14.lean"]
+PROP_FILES = ["HtmlVerif/Props/C14.lean", "HtmlVerif/Props/SrcC14.lean", "HtmlVerif/Props/SrcC15b.lean"]
 
 # ------------------------------------------------------------------ argument shapes
 S = lambda s: ("node", ("text", s))  # noqa: E731
@@ -474,6 +474,7 @@ def run(tier: str) -> int:
     ck.add_src(["is_tag_node", "is_tag_child", "util_flatten_recurse", "util_flatten", "tagchilds_to_tagnodes",
                 "TagList_should_not_expand", "TagList_init", "TagList_extend", "TagList_append", "TagList_insert",
                 "TagList_add", "TagList_radd", "TagList_iadd"], quick=250, thorough=2500)
+    ck.add_src(["Tag_initC15b", "Tag_insertC15b", "Tag_extendC15b", "Tag_appendC15b"], quick=250, thorough=2500)   # `tag_delegates` (Props/SrcC15b.lean)
     ck.correspond(holds=True)
     for f in ck.failures:
         if f.line and not f.py and f.line.split(" ", 1)[0] != "src":      # (`src` lines are the translator validation's own)
